@@ -862,7 +862,12 @@ fn gen_leaf(rng: &mut Rng, fns: &[String], has_data: bool, fail: bool) -> S {
                 _ => S::Print(vec![(E::Cell("C".to_string(), ix(rng)), ';'), (E::Cell("C".to_string(), ix(rng)), ';')], false),
             }
         }
-        14 if fail => match rng.below(12) {
+        14 if fail => match rng.below(15) {
+            // the subscripts of a READ target are evaluated BEFORE an item is taken: with the DATA exhausted (or absent) a failing
+            // subscript is reported, not OUT OF DATA
+            12 => S::Read(vec![("P".into(), Some(vec![E::Neg(Box::new(E::Num(1.0)))]))]),
+            13 => S::Read(vec![("A".into(), None), ("B".into(), None), ("X".into(), None), ("Y".into(), None), ("N".into(), None), ("U".into(), None), ("P".into(), Some(vec![E::Bin("/", Box::new(E::Num(1.0)), Box::new(E::Num(0.0)))]))]),
+            14 => S::Read(vec![("Q".into(), Some(vec![E::Str("s".into())]))]),
             // two faults at one statement: which error wins is part of the behaviour (an array that already exists - from
             // an earlier DIM or from a cell access - re-dimensioned with more than 10000 cells or a negative bound)
             8 => S::Dim("P".into(), vec![E::Num(100.0), E::Num(100.0)]),
@@ -928,6 +933,31 @@ fn gen_deep_fn_error(rng: &mut Rng) -> (Program, Vec<&'static str>) {
     prog.push((110, vec![S::Print(vec![(E::Call(names[depth].into(), vec![E::Num(arg)]), ';')], false)]));
     prog.push((120, vec![S::Print(vec![(E::Str("after".into()), ';')], false)]));
     (prog, vec!["deep-fn-error"])
+}
+
+/// two failures that meet on one READ target: the DATA items run out exactly at (or one before / after) an array cell whose
+/// subscript cannot be evaluated - the target is worked out first, so the subscript failure is the one reported (with the DEF
+/// line when it comes out of a function body)
+fn gen_read_collision(rng: &mut Rng) -> (Program, Vec<&'static str>) {
+    let k = rng.below(4);
+    let items = (k + rng.below(3)).saturating_sub(1);
+    let bad = match rng.below(5) {
+        0 => E::Neg(Box::new(E::Num(1.0))),
+        1 => E::Bin("/", Box::new(E::Num(1.0)), Box::new(E::Num(0.0))),
+        2 => E::Str("s".into()),
+        3 => E::Call("FNA".into(), vec![E::Num(0.0)]),
+        _ => E::Cell("P".into(), vec![E::Num(11.0)]),
+    };
+    let mut prog: Program = vec![(10, vec![S::Def("FNA".into(), vec!["X".into()], E::Bin("/", Box::new(E::Num(10.0)), Box::new(E::Var("X".into()))))])];
+    if items > 0 {
+        prog.push((20, vec![S::Data((0..items).map(|i| format!("{}", i + 1)).collect())]));
+    }
+    prog.push((30, vec![S::Print(vec![(E::Str("before".into()), ';')], false)]));
+    let mut targets: Vec<(String, Option<Vec<E>>)> = ["A", "B", "U"][..k].iter().map(|v| (v.to_string(), None)).collect();
+    targets.push(("Q".into(), Some(vec![bad])));
+    prog.push((40, vec![S::Read(targets)]));
+    prog.push((50, vec![S::Print(vec![(E::Str("after".into()), ';'), (E::Var("A".into()), ';')], false)]));
+    (prog, vec!["read-collision"])
 }
 
 /// STEP 0 and STEP -0 count as an upward step: the loop goes round while the variable is at most the limit, so a
@@ -1013,6 +1043,9 @@ pub fn gen_program(rng: &mut Rng, allow_else_resume: bool) -> (Program, Vec<&'st
     }
     if rng.chance(1, 20) {
         return gen_deep_fn_error(rng);
+    }
+    if rng.chance(1, 25) {
+        return gen_read_collision(rng);
     }
     let mut lines: Vec<Vec<S>> = vec![];
     let mut feats: Vec<&'static str> = vec![];
